@@ -21,7 +21,10 @@ CONSTANTS Keys,      \* keys that may occur
           MaxSteps
 
 SmallDefault == {<<"cmp", "val", "=", 1>>, <<"cmp", "val", "<", 2>>, <<"isnull", "val">>,
-                 <<"cmp", "val", ">=", 2>>, <<"cmp", "val", "<>", 0>>}
+                 <<"cmp", "val", ">=", 2>>, <<"cmp", "val", "<>", 0>>,
+                 \* lower / upper bounds that combine into non-empty ranges in every operator pairing and order
+                 \* (x < a AND x >= b, x <= a AND x > b, ...): the planner turns such pairs into one range search
+                 <<"cmp", "val", ">=", 1>>, <<"cmp", "val", "<=", 1>>, <<"cmp", "val", ">", 0>>}
 Preds == Depth2({"val"}, Lits, Small)
 Exprs == {<<"lit", 7>>, <<"lit", NULL>>, <<"plus", "val", 1>>}
 
@@ -47,18 +50,31 @@ Delete(p) ==
 Update(p, e) ==
   /\ tbl' = [k \in DOMAIN tbl |-> IF k \in TrueKeys(tbl, p) THEN EvalExpr(e, [id |-> k, val |-> tbl[k]]) ELSE tbl[k]]
   /\ last' = [op |-> "update", pred |-> p, setexpr |-> e]
-\* merge_insert keyed on id with a source of distinct keys
+\* merge_insert keyed on id.  The source is a sequence of <<key, val>> rows and may repeat a key.
+\* SQL MERGE: a statement in which more than one source row would update the same target row fails
+\* without effect; so does WHEN MATCHED FAIL with a match.  (A repeated key that matches nothing
+\* would insert two rows with one key; the table is a function here, such sources are not drawn.)
+SrcKeys(src) == {src[i][1] : i \in 1..Len(src)}
+SrcValOf(src, k) == src[CHOOSE i \in 1..Len(src) : src[i][1] = k][2]
+Repeated(src) == {k \in SrcKeys(src) : \E a, b \in 1..Len(src) : a # b /\ src[a][1] = k /\ src[b][1] = k}
+MergeFails(t, src, matched) ==
+  \/ matched = "fail" /\ SrcKeys(src) \cap DOMAIN t # {}
+  \/ matched = "update_all" /\ Repeated(src) \cap DOMAIN t # {}
 Merge(src, matched, notMatched, nmbs) ==
-  LET sk == DOMAIN src
+  LET sk == SrcKeys(src)
       m == sk \cap DOMAIN tbl
       upd == IF matched = "update_all" THEN m ELSE {}
       ins == IF notMatched = "insert_all" THEN sk \ DOMAIN tbl ELSE {}
       gone == IF nmbs = "delete" THEN (DOMAIN tbl) \ sk ELSE {}
-  IN /\ ~(matched = "fail" /\ m # {})
-     /\ tbl' = [k \in ((DOMAIN tbl) \ gone) \cup ins |-> IF k \in upd \cup ins THEN src[k] ELSE tbl[k]]
-     /\ last' = [op |-> "merge_insert", src |-> SetToSeq({<<k, src[k]>> : k \in DOMAIN src}), matched |-> matched, not_matched |-> notMatched, nmbs |-> nmbs]
+  IN /\ Repeated(src) \subseteq DOMAIN tbl
+     /\ tbl' = IF MergeFails(tbl, src, matched) THEN tbl
+               ELSE [k \in ((DOMAIN tbl) \ gone) \cup ins |-> IF k \in upd \cup ins THEN SrcValOf(src, k) ELSE tbl[k]]
+     /\ last' = [op |-> "merge_insert", src |-> src, matched |-> matched, not_matched |-> notMatched, nmbs |-> nmbs,
+                 fails |-> MergeFails(tbl, src, matched)]
 
-Sources == {(1 :> 8), (9 :> 8), (1 :> 8) @@ (9 :> NULL), (2 :> 0) @@ (3 :> 3) @@ (9 :> 1)}
+Sources == {<<<<1, 8>>>>, <<<<9, 8>>>>, <<<<1, 8>>, <<9, NULL>>>>, <<<<2, 0>>, <<3, 3>>, <<9, 1>>>>,
+            \* repeated keys: different values, identical rows, among other rows
+            <<<<1, 8>>, <<1, 9>>>>, <<<<4, 5>>, <<4, 5>>>>, <<<<2, 0>>, <<3, 3>>, <<9, 1>>, <<3, 4>>>>}
 
 Next == /\ steps < MaxSteps
         /\ steps' = steps + 1
@@ -80,6 +96,10 @@ DeleteKeepsUnknown ==
    [][\A p \in Preds : (last'.op = "delete" /\ last'.pred = p) =>
          DOMAIN tbl' = (DOMAIN tbl) \ TrueKeys(tbl, p)]_vars
 UpdateKeepsCount == [][last'.op = "update" => DOMAIN tbl' = DOMAIN tbl]_vars
+\* a failing merge has no effect; a succeeding one never updates a row from two source rows
+MergeFailsWithoutEffect == [][(last'.op = "merge_insert" /\ last'.fails) => tbl' = tbl]_vars
+MergeIsFunctional == [][(last'.op = "merge_insert" /\ ~last'.fails /\ last'.matched = "update_all")
+                          => Repeated(last'.src) \cap DOMAIN tbl = {}]_vars
 TypeOK == \A k \in DOMAIN tbl : tbl[k] \in Nat \cup {NULL}
 
 \* scenario export --------------------------------------------------------
